@@ -129,7 +129,12 @@ def _split_case(case, ctx):
             feats = dict(_base_feats(desc), fn=name, direction=K.DIRN[a], degree=p, mult=s, at_existing_knot=s > 0,
                          full_multiplicity=s == p)
             rc = dict(kind='split', shape=desc, fn=name, params=[u])
-            pieces = fn(obj, u)
+            try:
+                pieces = fn(obj, u)
+            except Exception as e:
+                ctx.check('C07.split.accepted', False, rc, feats, 'two pieces', repr(e)[:300], 'interior split raised')
+                continue
+            ctx.check('C07.split.accepted', True, rc, feats)
             ctx.check('C07.split.input_unchanged', S.snapshot(obj) == before, rc, feats, 'snapshot unchanged', None)
             if not ctx.check('C07.split.two_pieces', isinstance(pieces, (list, tuple)) and len(pieces) == 2, rc, feats, 2,
                              len(pieces) if hasattr(pieces, '__len__') else repr(pieces)):
@@ -175,12 +180,16 @@ def _decompose_case(case, ctx):
                      max_mult=[max([R.multiplicity(U, k) for k in set(U[p + 1:len(U) - p - 1])] or [0])
                                for p, U in zip(d_orig['degrees'], d_orig['kvs'])])
         rc = dict(kind='decompose', shape=desc, dirs=[mode])
+        try:
+            pieces = operations.decompose_curve(obj) if pd == 1 else operations.decompose_surface(obj, decompose_dir=mode)
+        except Exception as e:
+            ctx.check('C07.decompose.accepted', False, rc, feats, 'list of Bezier pieces', repr(e)[:300], 'decomposition raised')
+            continue
+        ctx.check('C07.decompose.accepted', True, rc, feats)
         if pd == 1:
-            pieces = operations.decompose_curve(obj)
             cells = [[iv] for iv in ivs[0]]
             bez = [0]
         else:
-            pieces = operations.decompose_surface(obj, decompose_dir=mode)
             if mode == 'u':
                 cells, bez = [[iu, doms[1]] for iu in ivs[0]], [0]
             elif mode == 'v':
